@@ -746,10 +746,13 @@ func freshBytesResult(p *core.Program, r *core.Report, rule string, relPkgs []st
 				return true
 			}
 			sel, ok := ast.Unparen(call.Fun).(*ast.SelectorExpr)
-			if !ok || sel.Sel.Name != "Bytes" {
+			if !ok || (sel.Sel.Name != "Bytes" && sel.Sel.Name != "ToByteArray") {
 				return true
 			}
-			if nt := namedOf(info.TypeOf(sel.X)); nt == nil || nt.Obj().Pkg() == nil || nt.Obj().Pkg().Path() != "bytes" || nt.Obj().Name() != "Buffer" {
+			// bytes.Buffer.Bytes(), or the output stream's ToByteArray() (the bytes of the buffer behind it)
+			if nt := namedOf(info.TypeOf(sel.X)); nt == nil || nt.Obj().Pkg() == nil ||
+				!((nt.Obj().Pkg().Path() == "bytes" && nt.Obj().Name() == "Buffer" && sel.Sel.Name == "Bytes") ||
+					(strings.HasSuffix(nt.Obj().Pkg().Path(), "/golib/io") && nt.Obj().Name() == "DataOutputX" && sel.Sel.Name == "ToByteArray")) {
 				return true
 			}
 			n++
